@@ -17,16 +17,15 @@ Proof. exact (fun f kvs k => conj (mk_attrs_denotes f kvs k) (filter_by_full_key
 Print Assumptions filter_by_full_key.
 
 (* ---- "... are equal as key-to-value maps": the code's comparison of two ordered maps decides equality of the maps the two
-   measurements denote ([sets_equal], the SPEC: no sorting, no insertion), for measurements without NaN values (one side suffices) *)
-Theorem maps_equal_iff_sets_equal : forall f a b, kvs_nan a = false ->
-  attrs_eqb (mk_attrs f a) (mk_attrs f b) = sets_equal f a b.
+   measurements denote ([sets_equal], the SPEC: no sorting, no insertion), for all values - a NaN is the same value as a NaN *)
+Theorem maps_equal_iff_sets_equal : forall f a b, attrs_eqb (mk_attrs f a) (mk_attrs f b) = sets_equal f a b.
 Proof. exact attrs_eqb_iff_sets_equal. Qed.
 Print Assumptions maps_equal_iff_sets_equal.
 
 (* ---- "Two measurements on one instrument contribute to the same series exactly when [they are equal sets]": in every table
    state t and for every limit, the second measurement is answered with the entry the first one was answered with if the sets are
    equal; and if it is answered with the same entry then the sets are equal or that entry is the overflow series *)
-Theorem same_series_iff_equal_maps : forall L f a b d t, kvs_nan a = false ->
+Theorem same_series_iff_equal_maps : forall L f a b d t,
   (sets_equal f a b = true ->
      attrs_eqb (series_key L (mk_attrs f a) t) (series_key L (mk_attrs f b) (record L (mk_attrs f a) d t)) = true) /\
   (attrs_eqb (series_key L (mk_attrs f a) t) (series_key L (mk_attrs f b) (record L (mk_attrs f a) d t)) = true ->
@@ -34,18 +33,19 @@ Theorem same_series_iff_equal_maps : forall L f a b d t, kvs_nan a = false ->
 Proof. exact same_series_iff_equal_sets. Qed.
 Print Assumptions same_series_iff_equal_maps.
 
-(* Full statement without the hypothesis [kvs_nan a = false] is REFUTED by the faithful model (open finding F26): a set holding a NaN
-   double equals itself as a map, the code's comparison says it does not, and two such measurements are reported as two series *)
-Theorem same_series_iff_equal_maps_refuted :
-  sets_equal FNone nan_kvs nan_kvs = true /\ attrs_eqb (mk_attrs FNone nan_kvs) (mk_attrs FNone nan_kvs) = false /\
-  run_ops f26_cfg f26_ops [f26_walk; f26_walk] (init_storage f26_cfg) = [CReport f26_walk] /\
-  storage_clauses true f26_cfg f26_ops [RPoints f26_walk] =
-    fail "same_series_iff_equal_maps:nan_value" ++ fail "same_series_iff_equal_maps:nan_value".
-Proof. exact same_series_refuted_nan. Qed.
-Print Assumptions same_series_iff_equal_maps_refuted.
+(* regression of the repaired F26 / F26b: sets holding a NaN (two different NaN payloads) are one series, for a delta reader and
+   on the merge path of a cumulative reader, and the SPEC checker accepts the reports *)
+Theorem nan_attribute_value_regression :
+  attrs_eqb (mk_attrs FNone nan_kvs) (mk_attrs FNone nan_kvs') = true /\
+  run_ops f26_cfg f26_ops [[(nan_key, 2)]; [(nan_key, 2)]] (init_storage f26_cfg) = [CReport [(nan_key, 2)]] /\
+  run_ops f26b_cfg f26b_ops [[(nan_key, 1)]; [(nan_key, 1)]; [(nan_key', 2)]; [(nan_key', 3)]] (init_storage f26b_cfg) =
+    [CReport [(nan_key, 1)]; CReport [(nan_key', 3)]] /\
+  storage_clauses true f26b_cfg f26b_ops [RPoints [(nan_key, 1)]; RPoints [(nan_key', 3)]] = [].
+Proof. exact nan_value_regression. Qed.
+Print Assumptions nan_attribute_value_regression.
 
 (* ---- and in every report of every history no attribute set is split over two series: the keys of a reported table are pairwise
-   different under the map comparison (with NaN values too) *)
+   different under the map comparison *)
 Theorem reported_series_distinct : forall c ops walks t, (1 <= c_limit c)%nat ->
   In (CReport t) (run_ops c ops walks (init_storage c)) -> kdistinct t.
 Proof. exact (fun c ops walks t => reported_series_distinct_lemma c ops walks t). Qed.
@@ -73,14 +73,15 @@ Proof.
 Qed.
 Print Assumptions order_insensitive_last_wins.
 
-(* ---- "and equal sets always hash equally": for ANY std::hash<std::string> and any std::hash<double> that respects operator== of
-   double (+0.0 and -0.0 alike), maps that compare equal have equal GetHashForAttributeMap values - so operator== of
-   FilteredOrderedAttributeMap (cached hash first) is the map comparison - and equal sets of measurements hash equally *)
+(* ---- "and equal sets always hash equally": for ANY std::hash<std::string> and any std::hash<double> that respects the value
+   comparison of doubles (+0.0 and -0.0 alike; every NaN alike - GetHash<double> hands it the quiet NaN), maps that compare equal
+   have equal GetHashForAttributeMap values - so operator== of FilteredOrderedAttributeMap (cached hash first) is the map
+   comparison - and equal sets of measurements hash equally *)
 Theorem equal_maps_equal_hash : forall (h_str : bytes -> Z) (h_dbl : Z -> Z),
   (forall a b, dbl_eqb a b = true -> h_dbl a = h_dbl b) ->
   (forall a b, attrs_eqb a b = true -> hash_attrs h_str h_dbl a = hash_attrs h_str h_dbl b) /\
   (forall a b, key_eqb h_str h_dbl a b = attrs_eqb a b) /\
-  (forall f a b, kvs_nan a = false -> sets_equal f a b = true ->
+  (forall f a b, sets_equal f a b = true ->
      hash_attrs h_str h_dbl (mk_attrs f a) = hash_attrs h_str h_dbl (mk_attrs f b)).
 Proof.
   exact (fun h_str h_dbl H => conj (equal_maps_equal_hash_lemma h_str h_dbl H)
@@ -103,46 +104,38 @@ Print Assumptions series_le_limit_every_cycle.
    the value handed in, whichever entry (the overflow one included) receives it. *)
 Theorem overflow_conserves_total :
   (forall c ops walks, (1 <= c_limit c)%nat ->
-     results_ok c (fun _ => True) (fun _ => True) (run_ops c ops walks (init_storage c)) ops [] (map (fun _ => O) (c_temps c))) /\
+     results_ok c (fun _ => True) (run_ops c ops walks (init_storage c)) ops [] (map (fun _ => O) (c_temps c))) /\
   (forall L k d t, total (record L k d t) = total t + d) /\
-  (forall L t k d t', merge_in L t (k, d) = Some t' -> total t' = total t + d).
+  (forall L t k d, total (merge_in L t (k, d)) = total t + d).
 Proof. exact (conj conservation_lemma (conj record_total merge_in_total)). Qed.
 Print Assumptions overflow_conserves_total.
 
 (* ---- the same run satisfies all of it at once: size, distinct keys, totals *)
 Theorem every_history_ok : forall c ops walks, (1 <= c_limit c)%nat ->
-  results_ok c (P1 (c_limit c)) (fun _ => True) (run_ops c ops walks (init_storage c)) ops [] (map (fun _ => O) (c_temps c)).
+  results_ok c (P1 (c_limit c)) (run_ops c ops walks (init_storage c)) ops [] (map (fun _ => O) (c_temps c)).
 Proof. exact history_ok_all. Qed.
 Print Assumptions every_history_ok.
 
-(* ---- a collection always completes.  Full statement: forall c ops walks, ~ In CCrash (run_ops c ops walks (init_storage c)).
-   REFUTED by the faithful model (open finding F26b): with a NaN attribute value the merge path dereferences the null pointer
-   GetOrSetDefault(const MetricAttributes&) returns.  It holds for every history without NaN attribute values. *)
-Theorem collect_completes_refuted :
-  run_ops f26b_cfg f26b_ops [[(nan_key, 1)]] (init_storage f26b_cfg) = [CCrash] /\
-  storage_clauses true f26b_cfg f26b_ops [RCrash] = fail "collect_completes:nan_value" /\
-  run_hops 5 FNone [HGet 1 nan_kvs 1; HSize] [] [] = [HRNull].
-Proof. exact collect_completes_refuted_nan. Qed.
-Print Assumptions collect_completes_refuted.
-
-Theorem collect_completes_partial : forall c ops walks, (1 <= c_limit c)%nat -> ops_nan_free ops = true ->
-  ~ In CCrash (run_ops c ops walks (init_storage c)).
-Proof. exact nan_free_never_crashes_lemma. Qed.
-Print Assumptions collect_completes_partial.
+(* ---- a collection always completes: the table operations and the merge are total functions in the model (no null aggregation is
+   ever handed out - the repaired F26b), so a Collect ends without callback, with a report, or - only in the differential run -
+   with a walk order that is not one of the model's table *)
+Theorem collect_completes : forall c ops walks r, In r (run_ops c ops walks (init_storage c)) ->
+  r = CNoCb \/ (exists t, r = CReport t) \/ r = CReject.
+Proof. exact collect_completes_lemma. Qed.
+Print Assumptions collect_completes.
 
 (* ---- the SPEC checkers that ./check runs on the implementation's observations accept the model's output.
-   Pairs of attribute sets (EQ cases) and directly driven hash maps (HM cases): all clauses.
+   Pairs of attribute sets (EQ cases) and directly driven hash maps (HM cases): all clauses, all values.
    Storage histories (ST / MP cases): the clauses series_le_limit, overflow_conserves_total, duplicate_series, collect_completes
    ([storage_clauses false]).  Full statement: the same with [storage_clauses true], which adds the two checks that look inside the
    individual series (every reported set is the set of a recorded measurement or the overflow set; with fewer distinct sets than the
-   limit every series holds exactly the sum of its own measurements).  Those two are not proved of the model (they need a per-series
-   ghost history); they are evaluated on the implementation's reports on every run.  The excluded region [ops_nan_free] is F26. *)
+   limit every series holds exactly the sum of its own measurements); those two are not proved of the model here (they need a per-series ghost history); they are
+   evaluated on the implementation's reports on every run. *)
 Theorem model_meets_spec :
-  (forall f a b, kvs_nan a = false -> kvs_nan b = false -> eq_clauses f a b (eq_model f a b) = []) /\
-  (forall L f ops walks, (1 <= L)%nat -> hops_nan_free ops = true -> ~ In HRReject (run_hops L f ops walks []) ->
+  (forall f a b, eq_clauses f a b (eq_model f a b) = []) /\
+  (forall L f ops walks, (1 <= L)%nat -> ~ In HRReject (run_hops L f ops walks []) ->
      hashmap_clauses L (existsb hop_nan ops) (run_hops L f ops walks []) = []) /\
-  (forall c ops walks, (1 <= c_limit c)%nat -> ops_nan_free ops = true ->
-     ~ In CReject (run_ops c ops walks (init_storage c)) ->
+  (forall c ops walks, (1 <= c_limit c)%nat -> ~ In CReject (run_ops c ops walks (init_storage c)) ->
      storage_clauses false c ops (map robs_of (run_ops c ops walks (init_storage c))) = []).
 Proof. exact (conj eq_meets_spec (conj hashmap_meets_spec storage_meets_spec_partial)). Qed.
 Print Assumptions model_meets_spec.
